@@ -757,6 +757,7 @@ def run(ctx):
         exp = ec.emit_doc(term, rec["tpkg"])
         # objects the IR spells as intersections (own names): a witness class of their own
         inter_names = {ec.own_name(term["foreign"], n) for n in term.get("_inter", [])}
+        iplaces = ec.inter_places(u["ir"], u["pkg"]) if inter_names else set()
         dset = set(ec.doc_diffs(exp, desc))
         dang = ec.dangling(desc)
         if bool(dang) != bool(bad_refs):
@@ -794,7 +795,8 @@ def run(ctx):
                 per_clause["%s/roundtrip" % fmt] += 1
                 rnames = collections.Counter(e["name"] for e in exp)
                 for (c, pth, w) in sorted(rds):
-                    cls = "%s:%s" % (c[3:], "collision" if rnames.get(pth[0], 0) > 1 else "intersection" if pth[0] in inter_names else w)
+                    cls = "%s:%s" % (c[3:], "collision" if rnames.get(pth[0], 0) > 1 else "intersection" if ec.under(iplaces, pth) else
+                                     "%s@%s" % (w, ec.field_kind(exp, pth)) if c[3:] == "default" else w)
                     fail("roundtrip", cls, "round trip: %s (%s) at %s differs between the IR and what cog's %s parser reads back from the %s "
                          "document cog emitted for package %s" % (c[3:], w, "/".join(pth), fmt, fmt, rec["pkgname"]),
                          {"path": list(pth), "expected": [e for e in exp if e["name"] == pth[0]][:1],
@@ -805,6 +807,8 @@ def run(ctx):
         if refs:
             per_clause["%s/ref-resolves" % fmt] += 1
         names_count = collections.Counter(e["name"] for e in exp)
+        # bare names that two objects of different packages carry in THIS document (computed from the IR only)
+        collided = {n for n, k in names_count.items() if k > 1}
         per_clause["%s/names" % fmt] += len(exp)
         if inter_names:
             per_construct["intersection"] += 1
@@ -820,11 +824,15 @@ def run(ctx):
         if any(v > 1 for v in names_count.values()):
             per_construct["name-collision"] += 1
         # failures of the document-level clauses
+        any_defaults = any(ec._strip(f["t"])["k"] == "any" and f["def"]["j"] not in ("none", "obj")
+                           for e in exp if ec._strip(e["t"])["k"] == "obj" for f in ec._strip(e["t"])["props"])
+        if not valid and valid_cls == "default-value" and any_defaults:
+            valid_cls = "default-value:any-as-object"     # the IR has an `any` field with a non-object default; `any` is emitted as object
         if not valid:
             fail("valid", valid_cls, "the emitted %s document of package %s is rejected by %s: %s" % (
                 fmt, rec["pkgname"], "python jsonschema Draft7 check_schema" if fmt == "jsonschema" else "kin-openapi (load + Validate)", valid_err))
         if not own:
-            fail("own-parser", err_class(own_err), "cog's own %s parser rejects the %s document cog emitted for package %s: %s" % (
+            fail("own-parser", "default-value:any-as-object" if (err_class(own_err) == "default-value" and any_defaults) else err_class(own_err), "cog's own %s parser rejects the %s document cog emitted for package %s: %s" % (
                 fmt, fmt, rec["pkgname"], own_err))
         if bad_refs:
             fnames = {f["as"] for f in term["foreign"]}
@@ -834,7 +842,7 @@ def run(ctx):
             cls = w
             if names_count.get(path[0], 0) > 1:
                 cls = "collision"
-            elif path[0] in inter_names:
+            elif ec.under(iplaces, path):
                 cls = "intersection"
             elif clause == "names" and w == "object" and any(e["name"] == path[0] and ec.pkg_of(term["foreign"], e["src"]) != rec["tpkg"] for e in exp):
                 cls = "foreign-object"
@@ -882,7 +890,9 @@ def run(ctx):
                     if c["f"] == "NonMember" and kind == "const":
                         clause = "constraints"
                     cls = "accepts-invalid:%s%s" % (kind, "." + "+".join(bk) if bk else "")
-                    if any(cl == "names" and pth[0] in inter_names for (cl, pth, _w) in dset):
+                    if collided & {ec.own_name(term["foreign"], n) for n in ec.defs_on_path(term, root, c["p"])}:
+                        cls = "accepts-invalid:collision"   # the place concerns an object of a bare-name collision in this document
+                    elif any(cl == "names" and ec.under(iplaces, pth) for (cl, pth, _w) in dset):
                         cls = "accepts-invalid:intersection"     # fields of an intersection (object or field type) were not emitted
                     if fmt == "openapi" and rec["notes"]:
                         # is the acceptance due to draft-07 keywords OpenAPI 3.0 does not have (const, numeric exclusive bounds)?
@@ -909,8 +919,8 @@ def run(ctx):
                 v = at_path(e["enc"], path)
                 segs = ["#%d" % s if isinstance(s, int) else s for s in path]
                 pos, kind, _ = sc.walk({"defs": term["defs"], "root": root}, segs, e["enc"])
-                if any(n > 1 for n in names_count.values()):
-                    cls = "collision"
+                if collided & {ec.own_name(term["foreign"], n) for n in ec.defs_on_path(term, root, segs)}:
+                    cls = "collision"       # the rejected place lies in / behind an object whose bare name two packages share in this document
                 elif kind == "any":
                     cls = "any:non-object"
                 elif v is None:
